@@ -402,6 +402,38 @@ def run(M, rep, tier, only=None):
         rep.check(R4, "Block.create_data_array", bad is None and n > 0, bad[1] if bad else "no path writes the given data", site=f.file + ":%d" % f.node.lineno,
                   detail=describe_path(bad[0], 30) if bad else None)
         shape_guard_table(M, rep, R4, oc)
+        # element type handed to the creation: the given dtype; without one the data's own dtype; with neither the default
+        badt = None
+        nt = 0
+        for p in oc.paths(f, "Block", max_paths=40000):
+            if not p.normal:
+                continue
+            cr = [e for e in p.events if e.kind == "ocall" and e.op.endswith("DataArray.create_new")]
+            if not cr:
+                continue
+            dts = [a_ for a_ in cr[0].args if a_.t == ("param", "dtype") or (a_.t and a_.t[0] == "attr" and a_.t[2] == "dtype")
+                   or (is_const(a_) and isinstance(a_.t[1], str) and a_.t[1] in ("f8", "float64", "d"))] + \
+                  [v_ for k_, v_ in cr[0].kw.items() if k_ in ("data_type", "dtype")]
+            dgiven = [v for a, v in p.decisions if a == ("isnone", ("param", "dtype"))]
+            dat = [v for a, v in p.decisions if a == ("isnone", ("param", "data"))]
+            if not dgiven:
+                continue
+            nt += 1
+            cand = [show(a_.t) for a_ in cr[0].args]
+            if dgiven[0] is False:
+                okt = any(a_.t == ("param", "dtype") for a_ in cr[0].args + tuple(cr[0].kw.values()))
+                why = "the given dtype is not what the array is created with"
+            elif dat and dat[0] is False:
+                okt = any(a_.t and a_.t[0] == "attr" and a_.t[2] == "dtype" and "data" in params_of(a_.t)
+                          for a_ in cr[0].args + tuple(cr[0].kw.values()))
+                why = "without a dtype the array is not created with the data's own element type (an integer/float width or " \
+                      "signedness is replaced): what is read back has another type than what was written"
+            else:
+                okt = True
+            if not okt:
+                badt = (p, why + " (creation arguments: %s)" % ", ".join(cand)[:200])
+        rep.check(R4, "Block.create_data_array/element type", badt is None and nt > 0, badt[1] if badt else "no creating path",
+                  site=f.file + ":%d" % f.node.lineno, detail=describe_path(badt[0], 30) if badt else None)
 
     # ---------------------------------------------------------------- R5
     if ds is not None:
